@@ -689,6 +689,64 @@ def add_named_block(rng, world):
     return True
 
 
+def add_whole_refs(rng, world, cols=False):
+    """Aggregates over whole rows (and, if ``cols``, whole columns) of one
+    sheet, placed outside the rows / columns they read.  Must be the LAST
+    motif applied: the node records the window as it is now."""
+    idx = Index(world)
+    b = rng.randrange(len(world['books']))
+    s = rng.randrange(len(world['books'][b]))
+    h, w = world['books'][b][s]
+    covered = set(idx.occ)
+    for c in world['cells']:
+        if 'f' in c:
+            for x in refs_of(c['f']):
+                r = x if x[0] == 'r' else world['names'][x[1]]['t']
+                covered.update(rect_cells(r))
+    for n in world['names']:
+        covered.update(rect_cells(n['t']))
+    mine = [q for q in covered if q[:2] == (b, s)]
+    r0 = max([q[2] for q in mine] + [h - 1]) + 1
+    c0 = max([q[3] for q in mine] + [w - 1]) + 1
+    # hosts stand at column c0 (outside every column read) in rows r0.. (outside
+    # every row read); they may be on another sheet altogether
+    hb, hs = b, s
+    if rng.chance(.3):
+        hb = rng.randrange(len(world['books']))
+        hs = rng.randrange(len(world['books'][hb]))
+    kinds = ['row'] + (['col'] if cols else []) + \
+        (['row'] if rng.chance(.3) else [])
+    rows_here = sorted({q[2] for q in idx.occ if q[:2] == (b, s)}) or [0]
+    cols_here = sorted({q[3] for q in idx.occ if q[:2] == (b, s)}) or [0]
+    hosts = []
+    for k, kind in enumerate(kinds):
+        if kind == 'row':
+            r1 = rng.pick(rows_here)
+            r2 = min(r1 + rng.pick([0, 0, 1]), r0 - 1)
+            node = ['w', b, s, r1, 0, r2, c0 - 1, 'row']
+        else:
+            c1 = rng.pick(cols_here)
+            c2 = min(c1 + rng.pick([0, 0, 1]), c0 - 1)
+            node = ['w', b, s, 0, c1, r0 - 1, c2, 'col']
+        f = ['f', rng.pick(['SUM', 'SUM', 'COUNT', 'MAX', 'MIN']), node]
+        if rng.chance(.3):
+            f = ['op', '+', f, ['n', rng.randrange(1, 4)]]
+        hosts.append(f)
+    if (hb, hs) == (b, s):
+        base_r, base_c = r0, c0
+    else:
+        hh, hw = world['books'][hb][hs]
+        cov2 = [q for q in covered if q[:2] == (hb, hs)]
+        base_r = max([q[2] for q in cov2] + [hh - 1]) + 1
+        base_c = 0
+    for k, f in enumerate(hosts):
+        world['cells'].append({'at': [hb, hs, base_r + k, base_c], 'f': f})
+    hh, hw = world['books'][hb][hs]
+    world['books'][hb][hs] = [max(hh, base_r + len(hosts)),
+                              max(hw, base_c + 1)]
+    return True
+
+
 def add_sparse_range(rng, world, undefined=False):
     """A 1x5 (or 5x1) rectangle with two constants and three blanks, an
     aggregate over it and a reader of one constant; optionally a cell using a
